@@ -239,8 +239,13 @@ fn parse_integer(string: &str, require_sign: bool) -> Result<Option<Integer>, er
             });
         }
 
-        integer *= prefix.radix as IntegerValue;
-        integer += digit as IntegerValue;
+        // The check above still lets the last digit overflow (eg. decimal "2147483648")
+        integer = integer
+            .checked_mul(prefix.radix as IntegerValue)
+            .and_then(|integer| integer.checked_add(digit as IntegerValue))
+            .ok_or(error::Value::IntegerTooLarge {
+                max: i16::MAX as u16,
+            })?;
     }
 
     assert!(
